@@ -82,4 +82,26 @@ def run(ctx):
                                   {"cfg": r.cfg, "resumed_from": p["iteration"]})
             else:
                 ctx.violation(f"resume-raises:{r2.error[0]}", f"resuming from iteration {p['iteration']} raised {r2.error[:2]}", {"cfg": r.cfg})
+    # a run that was really interrupted (exception in a user call) and resumed from the dictionary its callback kept: the history of
+    # the resumed run must be as faithful a record as any other (one entry per iteration, no temperature repeated)
+    nlive = 0
+    for r in [r for r in runs if r.error is None and r.cfg["kind"] != "emcee_smc" and any(p["bytes"] is not None for p in r.payloads)][: ctx.scale(4, 25)]:
+        total = r.target.ncalls
+        if total < 8:
+            continue
+        for kf in sorted({total // 2, ctx.rng.randrange(4, total - 1)}):
+            bad = sr.do_run(r.cfg, fail_at=kf)
+            if bad.error is None or not bad.payloads:
+                continue
+            r2 = sr.do_run(r.cfg, resume_from=bad.payloads[-1]["live"], vid0=10000)
+            nlive += 1
+            ctx.count(("resumed-live", r.cfg["seed"], kf), True, kind="resumed/kept-dictionary-after-fault")
+            if r2.error is None:
+                check_history(ctx, r2, "resumed-after-fault", resumed_from=bad.payloads[-1]["iteration"])
+                if len(r2.history.beta) != len(r.history.beta):
+                    ctx.violation("resumed-iterations:after-fault", f"history resumed after a fault at user call {kf} has {len(r2.history.beta)} iterations, uninterrupted {len(r.history.beta)}",
+                                  {"cfg": r.cfg, "fault_at_user_call": kf, "resumed_from": bad.payloads[-1]["iteration"]})
+            else:
+                ctx.violation(f"resume-raises:after-fault:{r2.error[0]}", f"resuming after a fault at user call {kf} raised {r2.error[:2]}", {"cfg": r.cfg})
     ctx.extra["resumed_histories_checked"] = nres
+    ctx.extra["resumed_after_fault_checked"] = nlive
